@@ -66,7 +66,44 @@ class MemFS:
         return f
 
 
+class PedScenario:
+    """trio f, m, c on one chromosome, no reads at all: records [first kind @100, second kind @100 or @150, snv @200]; the
+    parents are homozygous for different alleles at every record, the child heterozygous (genetic haplotyping phases it)"""
+
+    def __init__(self, e, shape):
+        self.shape = shape
+        self.samples = ["f", "m", "c"]
+        self.ped_text = "fam1 c f m 0 1\n"
+        self.tag, self.distrust = shape["tag"], False
+        self.only_snvs = bool(e.bit("only_snvs"))
+        self.sel_samples = self.sel_chroms = None
+        self.reads = {}
+        self.orient = {s: 0 for s in self.samples}
+        self.newgt = {"chrA": "same"}
+        kinds = shape["kinds"]
+        pos = [100, 100 if shape["same_pos"] else 150, 200]
+        header = [("GENERIC", "source", "x"), ("FORMAT", "GT", "1", "String"), ("FORMAT", "DP", "1", "Integer"), ("FORMAT", "PS", "1", "Integer"), ("FORMAT", "HP", ".", "String"), ("contig", "chrA")]
+        recs = []
+        for k, p in enumerate(pos):
+            ref, alts = KINDS[kinds[k]]
+            if k == 1 and shape["same_pos"] and alts == KINDS[kinds[0]][1]:
+                alts = ("T",) if len(alts) == 1 else ("T", "G")
+            fa = e.choice("father_%d" % k, [(1, 1), (0, 0)])
+            mo = (0, 0) if fa == (1, 1) else (1, 1)
+            calls = [{"GT": g, "phased": False, "DP": 10 + k} for g in (fa, mo, (0, 1))]
+            recs.append(dict(chrom="chrA", pos=p, id="rs%d_%d" % (p, k), ref=ref, alts=alts, qual=None, filter=[], info={}, format=["GT", "DP"], calls=calls))
+        self.doc = dict(samples=list(self.samples), header=header, records=recs)
+        self.given = {}
+        self.gtchanges_made = []
+
+    def usable(self, rec):
+        return len(rec["alts"]) == 1 and (not self.only_snvs or len(rec["alts"][0]) == 1)
+
+
 class Scenario:
+    samples = SAMPLES
+    ped_text = None
+
     def __init__(self, e, shape):
         self.shape = shape
         old, kinds = shape["old"], shape["kinds"]
@@ -201,10 +238,16 @@ class PhaseRun(SubCheck):
                         if tier == "quick" and distrust and kinds not in KIND_SETS[:2]:
                             continue
                         out.append(dict(old=old, tag=tag, distrust=distrust, kinds=list(kinds), chromsel=(tier != "quick" and not distrust)))
+        # pedigree shapes (trio, no reads): two records at one position / at different positions, every kind combination
+        for tag in ("PS", "HP"):
+            for same in (True, False):
+                for k0 in ("snv", "multi", "indel"):
+                    for k1 in ("snv", "indel"):
+                        out.append(dict(ped=True, tag=tag, old=None, distrust=False, same_pos=same, kinds=[k0, k1, "snv"]))
         return self.filter_shapes(out)
 
     def filter_shapes(self, shapes):
-        return shapes
+        return [s for s in shapes if not s.get("ped")]
 
     def bounds(self, tier):
         return ("%d shapes: 2 samples x 2 chromosomes (2 + 1 records; kinds %s), input unphased / PS-phased / HP-phased, --tag PS/HP, --distrust-genotypes on/off; solver-chosen: --only-snvs, --sample s1 or all, "
@@ -223,7 +266,7 @@ class PhaseRun(SubCheck):
         climod.PhasedInputReader = None
         w = SymWorld(overrides={"pysam": pm, "pysam.libcbcf": pm, "whatshap.core": core_model, "whatshap.cli": climod,
                                 "whatshap.readselect": types.SimpleNamespace(readselection=lambda rs, cov, preferred_source_ids=None, bridging=True: set(range(len(rs))))})
-        self.sym = dict(phase=w.load("whatshap.cli.phase"), vcf=w.load("whatshap.vcf"), core=core_model)
+        self.sym = dict(phase=w.load("whatshap.cli.phase"), vcf=w.load("whatshap.vcf"), core=core_model, ped=w.load("whatshap.pedigree"))
         for m in ("phase", "vcf"):
             self.sym[m].logger.setLevel(logging.CRITICAL)
         vcfdoc.ensure_real()
@@ -266,6 +309,10 @@ class PhaseRun(SubCheck):
             if impl == "sym":
                 fs = MemFS()
                 phase.__dict__["__builtins__"]["open"] = fs.open
+                if sc.ped_text:
+                    fs.files["ped.txt"] = sc.ped_text
+                    W["ped"].__dict__["__builtins__"]["open"] = fs.open
+                    kw["ped"] = "ped.txt"
                 self.pm.FS.clear()
                 self.pm.FS["in.vcf"] = sc.doc
                 sink = self.pm.MemFile()
@@ -279,6 +326,9 @@ class PhaseRun(SubCheck):
                 lists = dict(fs.files)
             else:
                 tmp = tempfile.mkdtemp(prefix="phase-run-", dir="/var/tmp")
+                if sc.ped_text:
+                    kw["ped"] = os.path.join(tmp, "ped.txt")
+                    open(kw["ped"], "w").write(sc.ped_text)
                 vin, vout = materialise.write_vcf(sc.doc, os.path.join(tmp, "in.vcf")), os.path.join(tmp, "out.vcf")
                 try:
                     phase.run_whatshap(variant_file=vin, output=vout, read_list_filename=os.path.join(tmp, "reads.tsv"), gtchange_list_filename=os.path.join(tmp, "gtchanges.tsv"), **kw)
@@ -301,6 +351,8 @@ class PhaseRun(SubCheck):
                     phase.__dict__[k] = v
             if impl == "sym":
                 phase.__dict__["__builtins__"]["open"] = open
+                if sc.ped_text:
+                    W["ped"].__dict__["__builtins__"]["open"] = open
             if tmp:
                 shutil.rmtree(tmp, ignore_errors=True)
         return out, lists, exc
@@ -325,6 +377,8 @@ class PhaseRun(SubCheck):
         return recs
 
     def harness(self, e, shape, impl):
+        if shape.get("ped"):
+            return self.harness_ped(e, shape, impl)
         sc = Scenario(e, shape)
         if shape["old"]:
             e.cover("input already phased")
@@ -352,6 +406,20 @@ class PhaseRun(SubCheck):
             self.unreadable(e, sc, shape, info)
             return
         e.check(exc is None, "whatshap phase failed: %s" % (exc or "")[:80], info)
+        e.check(out is not None, "no output VCF", info)
+        self.judge(e, sc, shape, out, lists, info)
+
+    def harness_ped(self, e, shape, impl):
+        sc = PedScenario(e, shape)
+        out, lists, exc = self.execute(e, sc, impl)
+        e.out("exception", exc)
+        e.out("out", self.norm_doc(out))
+        info = lambda: dict(options=dict(tag=sc.tag, only_snvs=sc.only_snvs, ped="trio f, m, c"), record_kinds=shape["kinds"], input=[(r["chrom"], r["pos"], r["alts"], [dict(c) for c in r["calls"]]) for r in sc.doc["records"]],
+                            output=None if out is None else [(r["chrom"], r["pos"], r["alts"], [dict(c) for c in r["calls"]]) for r in out["records"]], handed_to_solver=sc.given, exception=exc)
+        if exc == CORRUPT and sc.tag == "HP":
+            e.cover("output unreadable: NUL bytes with --tag=HP (C04 known finding)")
+            return
+        e.check(exc is None, "whatshap phase --ped failed: %s" % (exc or "")[:80], info)
         e.check(out is not None, "no output VCF", info)
         self.judge(e, sc, shape, out, lists, info)
 
